@@ -22,6 +22,13 @@ func scenarios(c *vlib.Ctx) []*slib.Scn {
 	var out []*slib.Scn
 	add := func(p modules.C06Params, bound int) {
 		out = append(out, &slib.Scn{Scenario: modules.VerifC06(p), Family: "c06/" + p.Kind, Bound: bound})
+		if p.Explore && (p.Kind == "prep" || p.Kind == "start" || p.Kind == "stop") {
+			// lifecycle drivers also under the second default scheduler (youngest enabled thread first)
+			sc := modules.VerifC06(p)
+			sc.Name += "/sched=high"
+			sc.HighFirst = true
+			out = append(out, &slib.Scn{Scenario: sc, Family: "c06/" + p.Kind, Bound: bound})
+		}
 	}
 	// the complete (kind x value) table under the default schedule
 	for _, k := range kinds {
@@ -41,7 +48,20 @@ func scenarios(c *vlib.Ctx) []*slib.Scn {
 	// the error reporting channel is full and nobody receives: the panic must still be contained, returned and accounted
 	for _, k := range kinds {
 		add(modules.C06Params{Kind: k, Value: "string", FullCh: true}, 0)
+		add(modules.C06Params{Kind: k, Value: "error", FullCh: true}, 0) // unbuffered, nobody receiving
+		if k != "prep" && k != "start" && k != "stop" {
+			add(modules.C06Params{Kind: k, Value: "error", FullCh: true, Panics: 2}, 0)
+		}
 	}
+	// a service worker that was started before its module (from the prep routine) and panics once the module is online
+	for _, v := range []string{"string", "error"} {
+		add(modules.C06Params{Kind: "service-worker", Value: v, Early: true}, 0)
+		add(modules.C06Params{Kind: "service-worker", Value: v, Early: true, Panics: 2}, 0)
+	}
+	// a panicking stop routine while a worker of the module winds down: all interleavings of the two
+	add(modules.C06Params{Kind: "stop", Value: "string", Healthy: []string{"worker"}, Explore: true}, vlib.Pick(c, 2, 3))
+	add(modules.C06Params{Kind: "stop", Value: "error", Healthy: []string{"worker", "worker"}, Explore: true}, vlib.Pick(c, 2, 3))
+	add(modules.C06Params{Kind: "stop", Value: "string", Healthy: []string{"worker"}, Explore: true, Chain: true}, vlib.Pick(c, 2, 3))
 	// a service worker panics, the module is disabled during the back-off and enabled again before any management pass
 	for _, n := range []int{1, 2} {
 		add(modules.C06Params{Kind: "service-worker", Value: "error", Mgmt: true, Panics: n}, 0)
